@@ -459,7 +459,26 @@ pub fn run_with(w: &Wire, c: &Cfg, svc_in: &mut ScriptedProvider) -> Option<Obse
     let a: Vec<&str> = c.always.iter().map(|s| s.as_str()).collect();
     let b: Vec<&str> = c.ifreq.iter().map(|s| s.as_str()).collect();
     let d: Vec<&str> = c.prefixes.iter().map(|s| s.as_str()).collect();
-    let vec_reqs = VecSignedHeaderRequirements::new(&a, &b, &d);
+    // The Vec container is configured the way a service does it at start-up: one add_* call per declared
+    // name, in declaration order (`new` for the first half of each list, so that both routes are used).
+    // By the property the resulting object denotes the declared *set* of names, whatever the order,
+    // letter case or repetitions of the declarations.
+    let vec_reqs = {
+        let (a0, a1) = a.split_at(a.len() / 2);
+        let (b0, b1) = b.split_at(b.len() / 2);
+        let (d0, d1) = d.split_at(d.len() / 2);
+        let mut v = VecSignedHeaderRequirements::new(a0, b0, d0);
+        for h in a1 {
+            v.add_always_present(h);
+        }
+        for h in b1 {
+            v.add_if_in_request(h);
+        }
+        for h in d1 {
+            v.add_prefix(h);
+        }
+        v
+    };
     let now = now_of(c);
 
     // ---- intermediate observations through the `unstable` API (diagnostic, separate run)
